@@ -31,7 +31,8 @@ func (u *UseCase) UpdateTx(ctx context.Context, oldTxId, newTxId string, filter 
 	}
 
 	verifhook.At("utx.p1")
-	newTx.RLock()
+	newTx.Lock()
+	u.allStore.Lock()
 	var (
 		files     = make([]model.File, 0, tx.Len())
 		freeNodes = make([]*core.Node[model.File], 0, tx.Len())
@@ -43,6 +44,9 @@ func (u *UseCase) UpdateTx(ctx context.Context, oldTxId, newTxId string, filter 
 			u.nodePool.Release(link, n)
 		}
 		deleteFiles = append(deleteFiles, files...)
+
+		u.allStore.Unlock()
+		newTx.Unlock()
 	}()
 
 	deleteFiles = make([]model.File, 0, tx.Len())
@@ -67,7 +71,6 @@ func (u *UseCase) UpdateTx(ctx context.Context, oldTxId, newTxId string, filter 
 			freeNodes = append(freeNodes, n)
 		}
 	}
-	newTx.RUnlock()
 	verifhook.At("utx.between")
 	if err != nil {
 		return
@@ -76,13 +79,6 @@ func (u *UseCase) UpdateTx(ctx context.Context, oldTxId, newTxId string, filter 
 	if len(files) == 0 {
 		return
 	}
-
-	newTx.Lock()
-	u.allStore.Lock()
-	defer func() {
-		u.allStore.Unlock()
-		newTx.Unlock()
-	}()
 
 	err = u.fileRepo.RunTransaction(ctx, func(ctx context.Context) error {
 		for i := range files {
